@@ -35,6 +35,11 @@ impl ScopeRef {
     pub fn sub(parent: Self) -> Self {
         Self::dynamic(Scope::sub(parent))
     }
+    /// Create a new subscope of a given parent for the body of a
+    /// flow control directive (`@if`, `@each`, `@for`, `@while`).
+    pub fn sub_flow(parent: Self) -> Self {
+        Self::dynamic(Scope::sub_flow(parent))
+    }
     /// Create a new subscope of a given parent with selectors.
     pub fn sub_selectors(parent: Self, selectors: SelectorCtx) -> Self {
         Self::dynamic(Scope::sub_selectors(parent, selectors))
@@ -61,14 +66,14 @@ impl ScopeRef {
             let result = match b {
                 Item::IfStatement(cond, do_if, do_else) => {
                     if cond.evaluate(self.clone())?.is_true() {
-                        self.clone().eval_body(do_if)?
+                        Self::sub_flow(self.clone()).eval_body(do_if)?
                     } else {
-                        self.clone().eval_body(do_else)?
+                        Self::sub_flow(self.clone()).eval_body(do_else)?
                     }
                 }
                 Item::Each(names, values, body) => {
-                    let s = self.clone();
-                    for value in values.evaluate(s.clone())?.iter_items() {
+                    let s = Self::sub_flow(self.clone());
+                    for value in values.evaluate(self.clone())?.iter_items() {
                         s.define_multi(names, value)?;
                         if let Some(r) = s.clone().eval_body(body)? {
                             return Ok(Some(r));
@@ -78,7 +83,7 @@ impl ScopeRef {
                 }
                 Item::For(name, range, body) => {
                     let range = range.evaluate(self.clone())?;
-                    let s = self.clone();
+                    let s = Self::sub_flow(self.clone());
                     for value in range {
                         s.define(name.clone(), value)?;
                         if let Some(r) = s.clone().eval_body(body)? {
@@ -95,7 +100,7 @@ impl ScopeRef {
                     Some(v.do_evaluate(self.clone(), true)?)
                 }
                 Item::While(cond, body) => {
-                    let scope = Self::sub(self.clone());
+                    let scope = Self::sub_flow(self.clone());
                     while cond.evaluate(scope.clone())?.is_true() {
                         if let Some(r) = scope.clone().eval_body(body)? {
                             return Ok(Some(r));
@@ -200,6 +205,9 @@ pub struct Scope {
     format: Format,
     /// The thing to use for `@content` in a mixin.
     content: ArcSwapOption<MixinDecl>,
+    /// True for the scope of a flow control body (`@if`, `@each`, ...).
+    /// Assignments in top-level flow control update global variables.
+    flow: bool,
 }
 
 impl Scope {
@@ -219,6 +227,7 @@ impl Scope {
             forward: Default::default(),
             format,
             content: None.into(),
+            flow: false,
         }
     }
     /// Create a scope for a built-in module.
@@ -247,6 +256,15 @@ impl Scope {
             forward: Default::default(),
             format,
             content: None.into(),
+            flow: false,
+        }
+    }
+    /// Create a new subscope of a given parent for the body of a
+    /// flow control directive.
+    pub fn sub_flow(parent: ScopeRef) -> Self {
+        Self {
+            flow: true,
+            ..Self::sub(parent)
         }
     }
     /// Create a new subscope of a given parent with selectors.
@@ -262,6 +280,7 @@ impl Scope {
             forward: Default::default(),
             format,
             content: None.into(),
+            flow: false,
         }
     }
 
@@ -288,12 +307,21 @@ impl Scope {
         self.format
     }
 
-    /// Define a none-default, non-global variable.
+    /// Define a none-default, non-global variable in this scope.
+    ///
+    /// This declares (or overwrites) the variable in this very scope,
+    /// regardless of any declaration in an enclosing scope.  It is
+    /// used for arguments and loop variables.
     pub fn define(&self, name: Name, val: Value) -> Result<(), ScopeError> {
-        self.set_variable(name, val, false, false)
+        self.do_set_variable(name, val, false, false, false)
     }
 
-    /// Define a variable with a value.
+    /// Assign a value to a variable, as a variable declaration does.
+    ///
+    /// Unless `global`, the innermost enclosing scope that already
+    /// declares the variable is updated.  If there is none, or if that
+    /// is the global scope and the assignment is not in top-level
+    /// flow control, the variable is declared in this scope.
     ///
     /// The `$` sign is not included in `name`.
     pub fn set_variable(
@@ -302,6 +330,17 @@ impl Scope {
         val: Value,
         default: bool,
         global: bool,
+    ) -> Result<(), ScopeError> {
+        self.do_set_variable(name, val, default, global, true)
+    }
+
+    fn do_set_variable(
+        &self,
+        name: Name,
+        val: Value,
+        default: bool,
+        global: bool,
+        search: bool,
     ) -> Result<(), ScopeError> {
         if let Some((modulename, name)) = name.split_module() {
             let module = self
@@ -332,10 +371,42 @@ impl Scope {
         crate::verif::yield_point("set_variable");
         if global {
             self.define_global(name, val);
-        } else {
+        } else if !search {
+            self.variables.lock().unwrap().insert(name, val);
+        } else if let Some((name, val)) = self.assign_declared(name, val, true)
+        {
             self.variables.lock().unwrap().insert(name, val);
         }
         Ok(())
+    }
+    /// Assign to the innermost scope that declares `name`, if any.
+    ///
+    /// A global variable is only assigned when `toplevel`, i.e. when
+    /// all scopes passed so far are flow control scopes.
+    /// Gives the name and value back if nothing was assigned.
+    fn assign_declared(
+        &self,
+        name: Name,
+        val: Value,
+        toplevel: bool,
+    ) -> Option<(Name, Value)> {
+        {
+            let mut vars = self.variables.lock().unwrap();
+            if vars.contains_key(&name) {
+                return if self.parent.is_some() || toplevel {
+                    vars.insert(name, val);
+                    None
+                } else {
+                    Some((name, val))
+                };
+            }
+        }
+        match &self.parent {
+            Some(parent) => {
+                parent.assign_declared(name, val, toplevel && self.flow)
+            }
+            None => Some((name, val)),
+        }
     }
     /// Define a variable in the global scope that is an ultimate
     /// parent of this scope.
